@@ -101,13 +101,84 @@ type vc17Ev struct {
 	usage   *[3]int
 }
 
+// vc17Hex renders a byte string of an observation exactly like the oracle's hexL: hex, or
+// #<length>:<fnv1a64> beyond 1024 bytes.
+func vc17Hex(s string) string {
+	if len(s) > 1024 {
+		h := uint64(14695981039346656037)
+		for i := 0; i < len(s); i++ {
+			h ^= uint64(s[i])
+			h *= 1099511628211
+		}
+		return fmt.Sprintf("#%d:%d", len(s), h)
+	}
+	return zzverif.Hex([]byte(s))
+}
+
+// vc17Enc is the compact INPUT encoding of a byte string (oracle `cbytes`, vc17Dec): `-` or segments
+// joined by '+', a segment being hex or z<count>x<hexunit> for a unit repeated count times.
+func vc17Enc(s string) string {
+	if len(s) <= 512 {
+		return zzverif.Hex([]byte(s))
+	}
+	var segs []string
+	lit := 0
+	flush := func(to int) {
+		if to > lit {
+			segs = append(segs, zzverif.Hex([]byte(s[lit:to])))
+		}
+	}
+	for i := 0; i < len(s); {
+		jumped := false
+		for _, p := range []int{1, 2, 4, 8, 16} {
+			if i+2*p > len(s) || s[i:i+p] != s[i+p:i+2*p] {
+				continue
+			}
+			k := 2
+			for i+(k+1)*p <= len(s) && s[i:i+p] == s[i+k*p:i+(k+1)*p] {
+				k++
+			}
+			if k*p >= 128 {
+				flush(i)
+				segs = append(segs, fmt.Sprintf("z%dx%s", k, zzverif.Hex([]byte(s[i:i+p]))))
+				i += k * p
+				lit = i
+				jumped = true
+				break
+			}
+		}
+		if !jumped {
+			i++
+		}
+	}
+	flush(len(s))
+	return strings.Join(segs, "+")
+}
+
+func vc17Dec(t string) string {
+	if t == "-" {
+		return ""
+	}
+	var b strings.Builder
+	for _, seg := range strings.Split(t, "+") {
+		if rest, ok := strings.CutPrefix(seg, "z"); ok {
+			n, unit, _ := strings.Cut(rest, "x")
+			k, _ := strconv.Atoi(n)
+			b.WriteString(strings.Repeat(string(zzverif.Unhex(unit)), k))
+		} else {
+			b.Write(zzverif.Unhex(seg))
+		}
+	}
+	return b.String()
+}
+
 func vc17Calls(cs []vc17Call) string {
 	if len(cs) == 0 {
 		return "-"
 	}
 	parts := make([]string, len(cs))
 	for i, c := range cs {
-		parts[i] = fmt.Sprintf("%s/%s/%d", zzverif.Hex([]byte(c.name)), zzverif.Hex([]byte(c.args)), c.index)
+		parts[i] = fmt.Sprintf("%s/%s/%d", vc17Hex(c.name), vc17Hex(c.args), c.index)
 	}
 	return strings.Join(parts, ",")
 }
@@ -123,7 +194,7 @@ func vc17Opt(s *string) string {
 	if s == nil {
 		return "-"
 	}
-	return zzverif.Hex([]byte(*s))
+	return vc17Hex(*s)
 }
 
 func vc17Usage(u *[3]int) string {
@@ -134,12 +205,12 @@ func vc17Usage(u *[3]int) string {
 }
 
 func (e vc17Ev) info() string {
-	return fmt.Sprintf("m%s:d%s:%s:%d:%d", e.named, vc17B(e.done), zzverif.Hex([]byte(e.reason)), e.pec, e.ec)
+	return fmt.Sprintf("m%s:d%s:%s:%d:%d", e.named, vc17B(e.done), vc17Hex(e.reason), e.pec, e.ec)
 }
 
 // String renders exactly like the Lean oracle (Oracle/C17.lean show*).
 func (e vc17Ev) String() string {
-	h := zzverif.Hex([]byte(e.text))
+	h := vc17Hex(e.text)
 	switch e.tag {
 	case "g":
 		return fmt.Sprintf("g:%s:%s:%s", h, e.info(), e.ctx)
@@ -435,15 +506,25 @@ type vc17H struct {
 	client *api.Client
 	tools  *Model
 	pcache map[string][]vc17Call
+	rt     *vc17RT
+	climit int
 }
 
-type vc17RT struct{ h http.Handler }
+type vc17RT struct {
+	h    http.Handler
+	last []byte // the body handed to api.Client by the last request
+}
 
-func (rt vc17RT) RoundTrip(req *http.Request) (*http.Response, error) {
+func (rt *vc17RT) RoundTrip(req *http.Request) (*http.Response, error) {
 	w := NewRecorder()
 	rt.h.ServeHTTP(w, req)
+	rt.last = append([]byte(nil), w.Body.Bytes()...)
 	return w.Result(), nil
 }
+
+// the scanner limit of the UNCHANGED api.Client (api/client.go maxBufferSize = 512 * format.KiloByte); the
+// check re-reads it from the source (VERIF_C17_CLIENT_MAX)
+const vc17ClientMaxDoc = 512000
 
 const (
 	vc17Plain = "vplain"
@@ -542,7 +623,9 @@ func vc17Setup(t *testing.T) *vc17H {
 		t.Fatal(err)
 	}
 	h := &vc17H{t: t, router: router, run: run, out: zzverif.NewOut(), tools: tm, pcache: map[string][]vc17Call{}}
-	h.client = api.NewClient(&url.URL{Scheme: "http", Host: "verif.local"}, &http.Client{Transport: vc17RT{router}})
+	h.rt = &vc17RT{h: router}
+	h.climit = zzverif.EnvInt("VERIF_C17_CLIENT_MAX", vc17ClientMaxDoc)
+	h.client = api.NewClient(&url.URL{Scheme: "http", Host: "verif.local"}, &http.Client{Transport: h.rt})
 	return h
 }
 
@@ -578,15 +661,16 @@ type vc17Group struct {
 	nz     bool   // non-final chunks carry (irrelevant) non-zero counts
 	fmtJS  bool   // requests ask for format json
 	fault  string // none | load | detok | tok: runner method that fails outside Completion
+	conv   string // conversation of the ctx chat shapes (letters s u a A t); "" = uau
 }
 
 func (g vc17Group) String() string {
 	ps := make([]string, len(g.pieces))
 	for i, p := range g.pieces {
-		ps[i] = zzverif.Hex([]byte(p))
+		ps[i] = vc17Enc(p)
 	}
-	return fmt.Sprintf("grp pieces=%s mask=%d end=%s k=%d doneB=%s pec=%d ec=%d reason=%d nz=%s fmt=%s fault=%s",
-		strings.Join(ps, ","), g.mask, g.end, g.k, vc17B(g.doneB), g.pec, g.ec, g.reason, vc17B(g.nz), vc17B(g.fmtJS), g.flt())
+	return fmt.Sprintf("grp pieces=%s mask=%d end=%s k=%d doneB=%s pec=%d ec=%d reason=%d nz=%s fmt=%s fault=%s conv=%s",
+		strings.Join(ps, ","), g.mask, g.end, g.k, vc17B(g.doneB), g.pec, g.ec, g.reason, vc17B(g.nz), vc17B(g.fmtJS), g.flt(), g.convOf(vc17Shape{ctx: true}))
 }
 
 func (g vc17Group) flt() string {
@@ -608,7 +692,7 @@ func (g vc17Group) expectErr(s vc17Shape) string {
 			return vc17DetokMsg
 		}
 	case "tok":
-		if !gen && s.ctx {
+		if !gen && s.hist(g) {
 			return vc17TokMsg // chatPrompt measures earlier messages
 		}
 		if gen && !s.raw && g.end == "ok" {
@@ -638,7 +722,7 @@ func vc17ParseGroup(line string) (vc17Group, error) {
 		kv[k] = v
 	}
 	for _, p := range strings.Split(kv["pieces"], ",") {
-		g.pieces = append(g.pieces, string(zzverif.Unhex(p)))
+		g.pieces = append(g.pieces, vc17Dec(p))
 	}
 	g.mask, _ = strconv.ParseUint(kv["mask"], 10, 64)
 	g.end = kv["end"]
@@ -650,6 +734,7 @@ func vc17ParseGroup(line string) (vc17Group, error) {
 	g.nz = kv["nz"] == "1"
 	g.fmtJS = kv["fmt"] == "1"
 	g.fault = kv["fault"]
+	g.conv = kv["conv"]
 	return g, nil
 }
 
@@ -733,12 +818,14 @@ var vc17Shapes = []vc17Shape{
 	{ep: "chat", stream: 1, tools: true, model: vc17Tools}, {ep: "chat", stream: 0, tools: true, model: vc17Tools},
 	{ep: "chat", stream: 2, tools: true, model: vc17Tools},
 	{ep: "chat", stream: 1, ctx: true, model: vc17Plain}, {ep: "chat", stream: 0, ctx: true, model: vc17Plain},
-	{ep: "chat", stream: 1, tools: true, ctx: true, model: vc17Tools},
+	{ep: "chat", stream: 1, tools: true, ctx: true, model: vc17Tools}, {ep: "chat", stream: 0, tools: true, ctx: true, model: vc17Tools},
+	{ep: "chat", stream: 2, ctx: true, model: vc17Tools},
 	{ep: "oachat", stream: 1, model: vc17Plain}, {ep: "oachat", stream: 0, model: vc17Plain},
 	{ep: "oachat", stream: 1, usage: true, model: vc17Plain}, {ep: "oachat", stream: 2, usage: true, model: vc17Tools},
 	{ep: "oachat", stream: 1, tools: true, model: vc17Tools}, {ep: "oachat", stream: 0, tools: true, model: vc17Tools},
 	{ep: "oachat", stream: 1, tools: true, usage: true, model: vc17Tools},
 	{ep: "oachat", stream: 1, ctx: true, model: vc17Plain}, {ep: "oachat", stream: 0, ctx: true, model: vc17Plain},
+	{ep: "oachat", stream: 1, tools: true, ctx: true, model: vc17Tools}, {ep: "oachat", stream: 0, tools: true, ctx: true, model: vc17Tools},
 	{ep: "oacmpl", stream: 1, model: vc17Plain}, {ep: "oacmpl", stream: 0, model: vc17Plain},
 	{ep: "oacmpl", stream: 1, usage: true, model: vc17Plain}, {ep: "oacmpl", stream: 2, model: vc17Tools},
 	{ep: "cgen", stream: 1, model: vc17Plain}, {ep: "cgen", stream: 0, model: vc17Plain},
@@ -746,6 +833,7 @@ var vc17Shapes = []vc17Shape{
 	{ep: "cchat", stream: 1, model: vc17Plain}, {ep: "cchat", stream: 0, model: vc17Plain},
 	{ep: "cchat", stream: 1, tools: true, model: vc17Tools}, {ep: "cchat", stream: 0, tools: true, model: vc17Tools},
 	{ep: "cchat", stream: 1, ctx: true, model: vc17Plain},
+	{ep: "cchat", stream: 1, tools: true, ctx: true, model: vc17Tools}, {ep: "cchat", stream: 0, tools: true, ctx: true, model: vc17Tools},
 }
 
 // result of one request
@@ -754,6 +842,8 @@ type vc17Res struct {
 	evs    []vc17Ev
 	cerr   string // client view: "ok" or the error text
 	client bool
+	wire   []vc17Ev // client view: the lines api.Client was handed, decoded from the raw bytes
+	lens   []int    // client view: their lengths
 }
 
 func (r vc17Res) canon() string {
@@ -769,7 +859,7 @@ func (r vc17Res) canon() string {
 		if r.cerr == "" {
 			parts = append(parts, "ok")
 		} else {
-			parts = append(parts, "err:"+zzverif.Hex([]byte(r.cerr)))
+			parts = append(parts, "err:"+vc17Hex(r.cerr))
 		}
 	}
 	return strings.Join(parts, " ")
@@ -800,7 +890,7 @@ func (h *vc17H) body(s vc17Shape, g vc17Group) []byte {
 			}
 		}
 	case "chat":
-		m["messages"] = vc17Msgs(s)
+		m["messages"] = vc17Msgs(s, g, false)
 		if s.tools {
 			m["tools"] = vc17ToolDefs
 		}
@@ -809,7 +899,7 @@ func (h *vc17H) body(s vc17Shape, g vc17Group) []byte {
 			m["options"] = vc17Options
 		}
 	case "oachat":
-		m["messages"] = vc17Msgs(s)
+		m["messages"] = vc17Msgs(s, g, true)
 		if s.tools {
 			m["tools"] = vc17ToolDefs
 		}
@@ -844,12 +934,57 @@ func (h *vc17H) body(s vc17Shape, g vc17Group) []byte {
 // request options (stop, num_predict, ...) are handed to the runner untouched; the replies must not depend on them
 var vc17Options = map[string]any{"stop": []string{"\n\n", "END"}, "num_predict": 64, "temperature": 0, "seed": 7}
 
-func vc17Msgs(s vc17Shape) []map[string]any {
-	last := map[string]any{"role": "user", "content": "What is the weather in Paris?"}
-	if s.ctx {
-		return []map[string]any{{"role": "user", "content": "Hi"}, {"role": "assistant", "content": "Hello."}, last}
+// conversation of a chat request: one letter per message — s system, u user, a assistant,
+// A assistant carrying tool_calls, t tool result.  Shapes without ctx send the single user message;
+// ctx shapes send the group's conversation (default: user, assistant, user).
+func (g vc17Group) convOf(s vc17Shape) string {
+	if !s.ctx {
+		return "u"
 	}
-	return []map[string]any{last}
+	if g.conv == "" {
+		return "uau"
+	}
+	return g.conv
+}
+
+// hist: the request makes the handler call the runner before Completion (generate: Detokenize of
+// the supplied context; chat: Tokenize in chatPrompt, which measures only EARLIER messages)
+func (s vc17Shape) hist(g vc17Group) bool {
+	if s.ep == "gen" || s.ep == "oacmpl" || s.ep == "cgen" {
+		return s.ctx
+	}
+	return len(g.convOf(s)) >= 2
+}
+
+// vc17Msgs renders the conversation for the native API (openai=false) or /v1/chat/completions
+func vc17Msgs(s vc17Shape, g vc17Group, openai bool) []map[string]any {
+	var out []map[string]any
+	conv := g.convOf(s)
+	for i, c := range conv {
+		switch c {
+		case 's':
+			out = append(out, map[string]any{"role": "system", "content": "Be brief."})
+		case 'u':
+			text := fmt.Sprintf("Question %d?", i)
+			if i == len(conv)-1 {
+				text = "What is the weather in Paris?"
+			}
+			out = append(out, map[string]any{"role": "user", "content": text})
+		case 'a':
+			out = append(out, map[string]any{"role": "assistant", "content": fmt.Sprintf("Answer %d.", i)})
+		case 'A':
+			if openai {
+				out = append(out, map[string]any{"role": "assistant", "tool_calls": []map[string]any{{"id": "call_abcd1234", "index": 0, "type": "function",
+					"function": map[string]any{"name": "get_weather", "arguments": `{"city":"Paris"}`}}}})
+			} else {
+				out = append(out, map[string]any{"role": "assistant", "content": "", "tool_calls": []map[string]any{{
+					"function": map[string]any{"name": "get_weather", "arguments": map[string]any{"city": "Paris"}}}}})
+			}
+		case 't':
+			out = append(out, map[string]any{"role": "tool", "content": "22C, sunny"})
+		}
+	}
+	return out
 }
 
 var vc17Paths = map[string]string{"gen": "/api/generate", "chat": "/api/chat", "oachat": "/v1/chat/completions", "oacmpl": "/v1/completions"}
@@ -886,8 +1021,9 @@ func (h *vc17H) request(s vc17Shape, g vc17Group) vc17Res {
 				func(r api.GenerateResponse) error { res.evs = append(res.evs, vc17GenEv(r, s.model)); return nil })
 		} else {
 			var cmsgs []api.Message
-			for _, m := range vc17Msgs(s) {
-				cmsgs = append(cmsgs, api.Message{Role: m["role"].(string), Content: m["content"].(string)})
+			mb, _ := json.Marshal(vc17Msgs(s, g, false))
+			if err := json.Unmarshal(mb, &cmsgs); err != nil {
+				h.t.Fatal(err)
 			}
 			req := &api.ChatRequest{Model: s.model, Messages: cmsgs, Stream: stream, Format: format}
 			if g.fmtJS {
@@ -903,6 +1039,13 @@ func (h *vc17H) request(s vc17Shape, g vc17Group) vc17Res {
 		}
 		if err != nil {
 			res.cerr = err.Error()
+		}
+		for _, line := range bytes.Split(h.rt.last, []byte("\n")) {
+			if len(line) == 0 {
+				continue
+			}
+			res.lens = append(res.lens, len(line))
+			res.wire = append(res.wire, vc17Native(s.ep[1:], line, s.model))
 		}
 	default:
 		w := NewRecorder()
@@ -946,10 +1089,10 @@ func (h *vc17H) request(s vc17Shape, g vc17Group) vc17Res {
 	return res
 }
 
-func (h *vc17H) op(s vc17Shape, g vc17Group, chunks []llm.CompletionResponse, runErr error, table string) string {
+func (h *vc17H) op(s vc17Shape, g vc17Group, chunks []llm.CompletionResponse, runErr error, table string, lens []int) string {
 	var b strings.Builder
 	ep := s.ep
-	fmt.Fprintf(&b, "run %d %s %s %s %s %s %s %d ", zzverif.EnvInt("VERIF_C17_VARIANT", 0), ep, vc17B(s.streaming()), vc17B(s.raw), vc17B(s.tools), vc17B(s.usage), vc17B(s.ctx), h.run.promptLen)
+	fmt.Fprintf(&b, "run %d %s %s %s %s %s %s %d ", zzverif.EnvInt("VERIF_C17_VARIANT", 0), ep, vc17B(s.streaming()), vc17B(s.raw), vc17B(s.tools), vc17B(s.usage), vc17B(s.hist(g)), h.run.promptLen)
 	switch g.flt() {
 	case "load":
 		b.WriteString("load:" + zzverif.Hex([]byte(vc17LoadMsg)) + " ")
@@ -967,9 +1110,13 @@ func (h *vc17H) op(s vc17Shape, g vc17Group, chunks []llm.CompletionResponse, ru
 	}
 	fmt.Fprintf(&b, " %d", len(chunks))
 	for _, c := range chunks {
-		fmt.Fprintf(&b, " %s %s %d %d %d", zzverif.Hex([]byte(c.Content)), vc17B(c.Done), int(c.DoneReason), c.PromptEvalCount, c.EvalCount)
+		fmt.Fprintf(&b, " %s %s %d %d %d", vc17Enc(c.Content), vc17B(c.Done), int(c.DoneReason), c.PromptEvalCount, c.EvalCount)
 	}
 	b.WriteString(" " + table)
+	fmt.Fprintf(&b, " %d %d", h.climit, len(lens))
+	for _, n := range lens {
+		fmt.Fprintf(&b, " %d", n)
+	}
 	return b.String()
 }
 
@@ -993,9 +1140,9 @@ func (h *vc17H) table(chunks []llm.CompletionResponse) (string, bool) {
 	fmt.Fprintf(&b, "%d", len(ks))
 	for _, k := range ks {
 		calls := h.parse(k)
-		fmt.Fprintf(&b, " %s %d", zzverif.Hex([]byte(k)), len(calls))
+		fmt.Fprintf(&b, " %s %d", vc17Enc(k), len(calls))
 		for _, c := range calls {
-			fmt.Fprintf(&b, " %s %s", zzverif.Hex([]byte(c.name)), zzverif.Hex([]byte(c.args)))
+			fmt.Fprintf(&b, " %s %s", zzverif.Hex([]byte(c.name)), vc17Enc(c.args))
 		}
 	}
 	// early: some proper accumulated prefix (at a chunk boundary, before the last content) parses
@@ -1034,7 +1181,7 @@ func (h *vc17H) runGroup(g vc17Group) {
 		if s.tools {
 			tbl = table
 		}
-		h.out.Case(h.op(s, g, chunks, runErr, tbl), res.canon())
+		h.out.Case(h.op(s, g, chunks, runErr, tbl, res.lens), res.canon())
 		results[s.String()] = res
 		h.out.Count("cases")
 		h.out.Count("shape_" + s.ep + "_s" + strconv.Itoa(s.stream))
@@ -1121,6 +1268,9 @@ func vc17Fin(e *vc17Ev) string {
 func (h *vc17H) monitors(g vc17Group, chunks []llm.CompletionResponse, results map[string]vc17Res, early bool) {
 	gl := g.String()
 	fail := func(kind string, s vc17Shape, detail string) {
+		if len(detail) > 1200 {
+			detail = detail[:1200] + fmt.Sprintf("...(+%d)", len(detail)-1200)
+		}
 		h.out.L2(kind, gl+" shape="+s.String(), fmt.Sprintf("end=%s early=%s doneB=%s fault=%s %s", g.end, vc17B(early), vc17B(g.doneB), g.flt(), detail))
 	}
 	get := func(s vc17Shape) vc17Res { return results[s.String()] }
@@ -1225,14 +1375,12 @@ func (h *vc17H) monitors(g vc17Group, chunks []llm.CompletionResponse, results m
 				}
 			}
 		}
-		// --- api.Client sees what is on the wire
+		// --- api.Client delivers what is on the wire (the very bytes it was handed), and what it delivers
+		// ends with exactly one final message or one error, whatever the length of the lines
 		if s.ep == "cgen" || s.ep == "cchat" {
-			o := s
-			o.ep = s.ep[1:]
-			rawRes := get(o)
 			var msgs []string
 			werr := ""
-			for _, e := range rawRes.evs {
+			for _, e := range res.wire {
 				if e.tag == "e" {
 					werr = e.text
 					break
@@ -1240,11 +1388,38 @@ func (h *vc17H) monitors(g vc17Group, chunks []llm.CompletionResponse, results m
 				msgs = append(msgs, e.String())
 			}
 			var got []string
+			dones := 0
 			for _, e := range res.evs {
 				got = append(got, e.String())
+				if e.done {
+					dones++
+				}
 			}
-			if strings.Join(got, " ") != strings.Join(msgs, " ") || res.cerr != werr {
-				fail("client-view", s, fmt.Sprintf("client=%q err=%q wire=%q err=%q", got, res.cerr, msgs, werr))
+			maxLine := 0
+			for _, n := range res.lens {
+				maxLine = max(maxLine, n)
+			}
+			// a line the UNCHANGED client cannot hold (documented limit) is its own, known, class
+			kindView, kindFinal := "client-view", "client-one-final"
+			if maxLine >= vc17ClientMaxDoc {
+				kindView, kindFinal = "client-line-dropped", "client-line-dropped"
+			}
+			// a line the unchanged client cannot hold may be REFUSED: an error, after delivering exactly the
+			// messages before it
+			refused := false
+			if res.cerr != "" && werr == "" && len(got) < len(msgs) && len(got) < len(res.lens) && res.lens[len(got)] >= vc17ClientMaxDoc {
+				refused = strings.Join(got, " ") == strings.Join(msgs[:len(got)], " ")
+			}
+			if !refused && (strings.Join(got, " ") != strings.Join(msgs, " ") || res.cerr != werr) {
+				fail(kindView, s, fmt.Sprintf("maxline=%d lines=%d client delivered %d message(s) err=%q; wire has %d message(s) err=%q; client=%q wire=%q",
+					maxLine, len(res.lens), len(got), res.cerr, len(msgs), werr, got, msgs))
+			}
+			terminals := dones
+			if res.cerr != "" {
+				terminals++
+			}
+			if terminals != 1 {
+				fail(kindFinal, s, fmt.Sprintf("maxline=%d lines=%d client delivered %d final message(s) and err=%q", maxLine, len(res.lens), dones, res.cerr))
 			}
 		}
 		// --- OpenAI-compatible endpoints carry the native content
@@ -1470,6 +1645,53 @@ func vc17RandomText(r *zzverif.Rng, maxPieces int) []string {
 	return out
 }
 
+// conversations of the ctx chat shapes: 1-6 messages, every kind of last message
+var vc17Convs = []string{"uau", "u", "su", "uAt", "uAtAt", "suAtu", "ua", "us", "uA", "t", "A", "s", "a", "suauAt", "uAta", "utt", "sssu"}
+
+func vc17Conv(r *zzverif.Rng) string {
+	if r.Bool() {
+		return zzverif.Pick(r, vc17Convs)
+	}
+	n := r.Range(1, 6)
+	b := make([]byte, n)
+	for i := range b {
+		b[i] = "suaAt"[r.Intn(5)]
+	}
+	return string(b)
+}
+
+// long outputs (the api.Client scanner, the OpenAI writers and the handlers must cope with any length):
+// a quoted string of the given total size, as one chunk and as a total over three chunks, and a tool call
+// with an enormous argument string
+func (h *vc17H) runLong(r *zzverif.Rng) {
+	unit := "0123456789abcdef"
+	quoted := func(n int) string { return `"` + strings.Repeat(unit, n/16+1)[:n-2] + `"` }
+	sizes := []int{60 << 10, 64<<10 - 1, 64 << 10, 64<<10 + 1, 100 << 10, 300 << 10, 505000, 513000, 600 << 10}
+	var texts [][]string
+	for i, n := range sizes {
+		t := quoted(n)
+		texts = append(texts, []string{t})
+		if i%3 == 0 || n == 600<<10 {
+			a, b := n/3, 2*n/3
+			texts = append(texts, []string{t[:a], t[a:b], t[b:]})
+		}
+	}
+	for _, n := range []int{100 << 10, 600 << 10} {
+		call := `{"name":"write_file","arguments":{"path":"a.txt","data":` + quoted(n) + `}}`
+		texts = append(texts, []string{call}, []string{call[:n/2], call[n/2:]})
+	}
+	for _, pieces := range texts {
+		g := vc17Group{pieces: pieces, mask: 1<<uint(len(pieces)-1) - 1, end: "ok", pec: r.Range(1, 50), ec: r.Range(1, 99), conv: vc17Conv(r)}
+		h.runGroup(g)
+		h.out.Count("long_groups")
+		total := 0
+		for _, p := range pieces {
+			total += len(p)
+		}
+		h.out.Count(fmt.Sprintf("long_total_%07d", total))
+	}
+}
+
 func (h *vc17H) runText(r *zzverif.Rng, pieces []string, exhaustiveMax, samples int) {
 	n := len(pieces)
 	var masks []uint64
@@ -1490,7 +1712,9 @@ func (h *vc17H) runText(r *zzverif.Rng, pieces []string, exhaustiveMax, samples 
 	h.out.Count("texts")
 	for _, m := range masks {
 		base := vc17Group{pieces: pieces, mask: m, end: "ok", pec: r.Range(1, 50), ec: r.Range(1, 99), reason: 0,
-			nz: r.Chance(1, 4), fmtJS: r.Chance(1, 3)}
+			nz: r.Chance(1, 4), fmtJS: r.Chance(1, 3), conv: vc17Conv(r)}
+		h.out.Count("conv_len_" + strconv.Itoa(len(base.conv)))
+		h.out.Count("conv_last_" + base.conv[len(base.conv)-1:])
 		if r.Chance(1, 4) {
 			base.reason = r.Range(1, 2)
 		}
@@ -1599,6 +1823,7 @@ func TestVerifC17(t *testing.T) {
 	}
 
 	root := zzverif.NewRng(zzverif.Seed())
+	h.runLong(root.Fork())
 	exhaustiveMax := zzverif.EnvInt("VERIF_N", 6)
 	randomTexts := zzverif.EnvInt("VERIF_TEXTS", 12)
 	samples := zzverif.EnvInt("VERIF_SAMPLES", 12)
